@@ -148,7 +148,14 @@ func (s *Sim) applySvc(op *SvcOp) bool {
 		v.announce(ev, sub)
 		payload := ev.serviceEventJSON()
 		evName := ev.Kind
-		s.tr.publishEvent("event."+op.Name, "event."+op.Name+"."+evName, []byte(payload), op.Name, "", nil)
+		ev.EmitStep, ev.EmitCut = s.Step, s.Cut
+		name := op.Name
+		s.tr.publishEvent("event."+op.Name, "event."+op.Name+"."+evName, []byte(payload), op.Name, "", func() {
+			ev.DlvCut, ev.DlvSeq = s.Cut, s.seqNow()
+			if ev.Kind == "reaccess" {
+				s.triggerDelivered(&Trigger{Kind: "reaccess", Name: name, CIdx: -1})
+			}
+		})
 		s.stat("svc."+op.Op, 1)
 		return true
 
@@ -219,6 +226,7 @@ func (s *Sim) applySvc(op *SvcOp) bool {
 		}
 		tids := op.TIDs
 		subj := op.Subj
+		s.tokenResetSubj[subj] = true
 		ok := s.tr.publishEvent("system", "system.tokenReset", payload, "", "system.tokenReset", func() {
 			s.oracleTokenResetDelivered(tids, subj)
 		})
